@@ -16,7 +16,30 @@ N, M1, M2, COMPACT = F(P(0), "n"), F(P(0), "m1"), F(P(0), "m2"), F(P(0), "compac
 MM = lin_add(lin_add(M1, M2), num(1))
 
 
+def rule_forward_window(rep, pdb):
+    """Banded::solve, forward substitution: row k reaches rows k+1 .. min(k + m1, n - 1), the rows the factorisation stored multipliers for."""
+    from .common import value_before
+    fn = pdb.fn("%s::solve" % B)
+    rule = ("in solve the forward substitution `x[j] -= al[(k, j-k-1)] * x[k]` runs j over k+1..l where l starts at m1 (the number of sub-diagonals, the width of the multiplier "
+            "matrix) and grows by one per row up to n: started at m2 it skips multipliers (m2 < m1) or reads past the stored ones (m2 > m1)")
+    if fn is None:
+        rep.missing("solve/forward-window", rule, "solve not found")
+        return
+    ctx = Ctx.for_fn(pdb, fn)
+    ups = [e for e in effects(pdb, ctx) if e.kind == "upd" and e.op == "-=" and len(e.loops) == 2 and "idx" in repr(e.value) and not raw_for_range(ctx, e.loops[0])[4]]
+    ok, det = len(ups) == 1, "forward updates found: %d" % len(ups)
+    if ok:
+        e = ups[0]
+        ri = raw_for_range(ctx, e.loops[1])
+        hi = ri[2] if ri else None
+        start = value_before(ctx, hi, e.loops[0]) if hi is not None and hi[0] == "var" else None
+        ok = start == M1
+        det = "inner range %s..%s, the bound starts at %s" % (show(ri[1], ctx) if ri else None, show(hi, ctx) if hi is not None else None, show(start, ctx) if start is not None else None)
+    rep.add("solve/forward-window", rule, ok, ups[0].node if ups else fn["body"], det)
+
+
 def run(rep, pdb, tier):
+    rule_forward_window(rep, pdb)
     # ---- the solvers answer for every nonsingular system: their own panics depend on shapes (or an exactly-zero pivot) only
     from .c01 import rule_rejects_only_shapes
     rule_rejects_only_shapes(rep, pdb, [f_ for f_ in (pdb.fn("%s::%s" % (B, n_)) for n_ in ('decompose', 'solve', 'det')) if f_ is not None], floor=1)
